@@ -298,19 +298,33 @@ def watch_oracle(recs, pending, wi, o):
         ops = sorted([r for r in mine if (r.pre in ("wb", "wu", "wh", "wc", "wf", "wy") and r.args[1] == sl) or (r.pre == "wn" and r.args[2] == sl)],
                      key=lambda r: r.start)
         look = (-1, -1) if sl < nrx else None          # interval of the last look (version update)
+        look_val = None                                # the value that look returned (borrow_and_update / wait_for)
+
+        def after_look(x):
+            # the send x certainly committed after the last look: it began after the look ended, or the look returned a
+            # value that x certainly replaced (the value's own send had ended before x began; the initial value has none)
+            if x[0] > look[1]:
+                return True
+            if look_val is not None and look_val != x[2]:
+                src = [y for y in sends if y[2] == look_val]
+                if (look_val == init and not src) or (src and max(y[1] for y in src) < x[0]):
+                    return True
+            return False
+
         for r in ops:
             if r.pre == "wn":
                 if r.done is not None:
                     look = (r.start, r.done)
+                    look_val = None
                 continue
             if look is None:
                 continue
             may_changed = any(x[1] > look[0] and x[0] < (INF if r.done is None else r.done) for x in sends)
-            surely_changed = any(x[0] > look[1] and x[1] < r.start for x in done_sends)
+            surely_changed = any(after_look(x) and x[1] < r.start for x in done_sends)
             if r.done is None:
                 if r in pending and r.pre == "wc":
-                    # at a deadlock everything is quiescent: any completed send that began after the last look counts
-                    if any(x[0] > look[1] for x in done_sends):
+                    # at a deadlock everything is quiescent: any completed send that certainly came after the last look counts
+                    if any(after_look(x) for x in done_sends):
                         out.append(("deadlock: watch %d receiver %d is blocked in changed() although a send committed after its last look: a change notification was lost" % (wi, sl), None))
                     elif all_tx_dropped(r.start):
                         out.append(("deadlock: watch %d receiver %d is blocked in changed() although every sender had been dropped before the call" % (wi, sl), None))
@@ -319,6 +333,7 @@ def watch_oracle(recs, pending, wi, o):
                 check_value(r, r.vals[0], "borrow" if r.pre == "wb" else "borrow_and_update")
                 if r.pre == "wu":
                     look = (r.start, r.done)
+                    look_val = r.vals[0]
             elif r.pre == "wh":
                 c = r.vals[0]
                 if c == 2 and not all_tx_dropping(r.done):
@@ -332,6 +347,7 @@ def watch_oracle(recs, pending, wi, o):
                     if not may_changed:
                         out.append(("watch %d receiver %d: changed() returned Ok although no send can have committed since its last look (invented notification)" % (wi, sl), None))
                     look = (r.start, r.done)
+                    look_val = None
                 else:
                     if not all_tx_dropping(r.done):
                         out.append(("watch %d receiver %d: changed() returned Err while a sender is alive" % (wi, sl), None))
@@ -345,6 +361,7 @@ def watch_oracle(recs, pending, wi, o):
                 elif not all_tx_dropping(r.done):
                     out.append(("watch %d receiver %d: wait_for returned Err while a sender is alive" % (wi, sl), None))
                 look = (r.start, r.done)
+                look_val = r.vals[1] if r.vals[0] == 1 else None
             elif r.pre == "wy":
                 look = None
     # send fails only when no receiver exists: judged conservatively (all creation-time receivers dropped or dropping, no subscribe since)
